@@ -295,47 +295,84 @@ def slLine (args impl : List String) : String :=
     | _ => "bad-ann | C02:FAILS oracle:unparsed |"
   | _, _ => "bad-op | C02:FAILS oracle:unparsed |"
 
-/-- the reader machine (`SL.rStep` itself) against scripted load results: at every step the log is a
-    one-block log whose version is 1, whose cells are 0 and whose generation is the scripted value
-    g0 + 2*(k % period) mod 2^16 for the k-th generation load. Counts the loads until the call returns.
-    (An instance of the `logs : Nat → Log` of theorem C18.bounded.) -/
-def soloRun (a : SL.Ann) (g0 period : Nat) : String := Id.run do
-  let genAt (k : Nat) : Nat := (g0 + 2 * (k % period)) % 65536
-  let mut r : SL.Reader := ({} : SL.Reader).call
+/-- scripted generation value of the k-th generation load (see harness `solo_load`) -/
+def soloGen (g0 period mode k : Nat) : Nat :=
+  if mode = 1 then (if k = 0 then g0 else (g0 + 1) % 65536)
+  else if mode = 2 then (g0 + 1) % 65536
+  else if mode = 3 then (if k = 0 then g0 else if k % 2 = 1 then (g0 + 1) % 65536 else (g0 + 2 * ((k / 2) % period + 1)) % 65536)
+  else (g0 + 2 * (k % period)) % 65536
+
+/-- cells the k-th record copy returns: 1000 + k % 1000 in every cell, status 1 -/
+def soloCells (k : Nat) : List Nat := List.replicate 6 (1000 + k % 1000) ++ [1]
+
+/-- one `snapshot()` call of the reader machine (`SL.rStep` itself) against scripted load results:
+    at every step the log is a one-block log holding version 1, the scripted generation for the next
+    generation load and the cells of the current copy. Returns the reader afterwards, the result and
+    the load counters. (An instance of the `logs : Nat → Log` of theorem C18.bounded.) -/
+def soloCall (a : SL.Ann) (g0 period mode : Nat) (r0 : SL.Reader) (gens0 copies0 : Nat) :
+    SL.Reader × Option SL.RResult × Nat × Nat × Nat × Nat := Id.run do
+  let mut r : SL.Reader := r0.call
   let mut ver := 0
-  let mut gens := 0
-  let mut copies := 0
+  let mut gens := gens0
+  let mut copies := copies0
   let mut fences := 0
+  let mut copyIdx := copies0
   let mut result : Option SL.RResult := none
   let mut steps := 0
   while result.isNone ∧ steps ≤ SL.stepBound + 5 do
-    let log := SL.initBlock 1 (genAt gens) SL.zeros
     match r.pc with
     | .version => ver := ver + 1
+    | .gen1 => pure ()
+    | .gen2 _ _ _ => pure ()
+    | .fence _ _ _ => fences := fences + 1
+    | .copy _ _ todo _ =>
+      if todo.length == SL.N then
+        copyIdx := copies
+        copies := copies + 1
+    | .idle => pure ()
+    let log := SL.initBlock 1 (soloGen g0 period mode gens) (soloCells copyIdx)
+    match r.pc with
     | .gen1 => gens := gens + 1
     | .gen2 _ _ _ => gens := gens + 1
-    | .fence _ _ _ => fences := fences + 1
-    | .copy _ _ todo _ => if todo.length == SL.N then copies := copies + 1
-    | .idle => pure ()
+    | _ => pure ()
     let out := SL.rStep a log { r with view := {} } 0 0
     r := out.1
     result := out.2.1
     steps := steps + 1
-  match result with
-  | some (.ok cells) => return s!"ok {SL.cellsText cells} v{ver} g{gens} c{copies} f{fences}"
-  | some .errNotInit => return s!"err v{ver} g{gens} c{copies} f{fences}"
-  | none => return s!"unbounded v{ver} g{gens} c{copies} f{fences}"
+  return (r, result, ver, gens, copies, fences)
+
+def soloRun (a : SL.Ann) (g0 period mode : Nat) : String :=
+  let (r1, res1, ver, gens, copies, fences) := soloCall a g0 period mode ({} : SL.Reader) 0 0
+  -- second call: generation frozen at g0 + 1
+  let (_, res2, _, _, _, _) := soloCall a g0 period 2 r1 gens copies
+  let second := match res2 with
+    | some (.ok cells) => s!"then:{SL.cellsText cells}"
+    | some .errNotInit => "then:err"
+    | none => "then:unbounded"
+  let counts := s!"v{ver} g{gens} c{copies} f{fences}"
+  match res1 with
+  | some (.ok cells) => s!"ok {SL.cellsText cells} {counts} {second}"
+  | some .errNotInit => s!"err {counts} {second}"
+  | none => s!"unbounded {counts} {second}"
 
 /-- slx <g0> <period> => ok … | err v<n> g<n> c<n> f<n> | unbounded … -/
 def slxLine (args impl : List String) : String :=
   match ints args with
-  | some [g0, period] =>
-    let m := soloRun {} g0.toNat (max period.toNat 1)
+  | some (g0 :: period :: rest) =>
+    let mode := (rest.headD 0).toNat
+    let m := soloRun {} g0.toNat (max period.toNat 1) mode
     let returned := match impl with | "ok" :: _ => true | "err" :: _ => true | _ => false
     -- bound on shared accesses: generation loads ≤ 1 + RETRIES
     let genLoads := (impl.filterMap (fun t => if t.startsWith "g" then (t.drop 1).toNat? else none)).headD 0
-    let v := verdict "C18" true (returned && decide (genLoads ≤ SL.RETRIES + 1))
-    let tags := (if genLoads > 1000 then ["exhaust"] else ["short"])
+    -- the second call (generation odd) must answer from the previous snapshot: the empty record, or
+    -- the record the first call accepted — never the residue of a failed attempt
+    let firstCells := match impl with | "ok" :: c :: _ => c | _ => "0,0,0,0,0,0,0"
+    let thenTok := ((impl.find? (fun t => t.startsWith "then:")).map (fun t => (t.drop 5).toString)).getD "?"
+    let odd2 := decide ((g0.toNat + 1) % 2 = 1)
+    let secondOk := !odd2 || thenTok == firstCells
+    let v := verdict "C18" true (returned && decide (genLoads ≤ SL.RETRIES + 1) && thenTok != "unbounded") ++ " " ++
+             verdict "C02" true secondOk
+    let tags := (if genLoads > 1000 then ["exhaust"] else ["short"]) ++ (if mode == 1 then ["deadWriter"] else if mode == 3 then ["alternating"] else [])
     s!"{m} | {v} | {String.intercalate "," tags}"
   | _ => "bad-op | |"
 
@@ -345,6 +382,7 @@ def crashLine (args impl : List String) : String :=
     | "missing" :: r => some (.missing, r) | "empty" :: r => some (.empty, r) | "garbage" :: r => some (.garbage, r)
     | "wiped" :: r => some (.wiped, r)
     | "valid" :: g :: k :: r => (do some (Crash.Prior.valid (← g.toNat?) (← k.toNat?), r))
+    | "validv" :: v :: g :: k :: r => (do some (Crash.Prior.validv (← v.toNat?) (← g.toNat?) (← k.toNat?), r))
     | _ => none
   match parsed with
   | some (p, [k, k1, k2]) =>
@@ -359,8 +397,13 @@ def crashLine (args impl : List String) : String :=
       let len2 : Int := (field "len").toInt?.getD (-2)
       let att1 : String := ((atts[0]?).map (fun t => (t.drop 9).toString)).getD "?"
       let att2 : String := ((atts[1]?).map (fun t => (t.drop 9).toString)).getD "?"
-      let o : Crash.Observed := ⟨evName, field "open", len1, att1, field "inode_same" == "1", len2, field "fresh", att2⟩
-      let v := verdict "C04" true (C04.HoldsFile p k1 k2 o)
+      let o : Crash.Observed := ⟨evName, field "open", len1, att1, field "inode_same" == "1", len2, field "fresh", att2, field "mode"⟩
+      -- C16's repair clause (a fresh client can open and reads the record; readable by other users) and
+      -- C03's catch-up clause (an attached reader sees the restarted writer's publication) on the same run
+      let c16 := o.fresh == Crash.cellsText (Crash.recCells k2) && o.mode == "644"
+      let c03 := !p.file.usable || o.att2 == Crash.cellsText (Crash.recCells k2)
+      let v := verdict "C04" true (C04.HoldsFile p k1 k2 o) ++ " " ++ verdict "C16" true c16 ++ " " ++
+               verdict "C03" p.file.usable c03
       let tags := (if p.file.usable then ["priorUsable"] else ["priorUnusable"]) ++
         (if m.ev != "end" then ["crash"] else ["complete"]) ++ (if m.ev.startsWith "wipe" then ["crashInWipe"] else [])
       s!"{m.text} | {v} | {String.intercalate "," tags}"
@@ -411,7 +454,12 @@ def processLine (line : String) : String :=
   | "sl" :: args => slLine args impl
   | "crashpt" :: args => crashLine args impl
   | "thr" :: args => (DriverT.line "thr" args impl).getD "bad-op | |"
+  | "thrrel" :: mode :: _ =>
+    -- process-level run of the release binary: the writer died at start-up; the daemon must exit promptly
+    let ok := impl == ["exited", "fast"]
+    "exited fast | " ++ (if ok then "C15:holds" else "C15:FAILS") ++ " | release," ++ mode
   | "open" :: args => (DriverH.line "open" args impl).getD "bad-op | |"
+  | "open0" :: args => (DriverH.line "open" args impl).getD "bad-op | |"
   | "seg" :: args => (DriverH.line "seg" args impl).getD "bad-op | |"
   | "snap" :: args => (DriverH.line "snap" args impl).getD "bad-op | |"
   | "sandwich" :: args => (DriverH.line "sandwich" args impl).getD "bad-op | |"
